@@ -1,5 +1,4 @@
-import RedisVerif.Lemmas.ExecutorClock
-import RedisVerif.Model.ExecutorColl
+import RedisVerif.Lemmas.ExecutorMove
 
 /-!
   C01 — the EXECUTOR AS IT IS refines the reference model.
@@ -8,7 +7,7 @@ import RedisVerif.Model.ExecutorColl
   lazy expiry by `get_value`, `set_time` / `update_time_readonly`, every `execute_*` with its own order
   of checks and its own i64 / u64 arithmetic).  The theorems below say that, from every state that
   satisfies the executor's own invariant (`CInv` = `verify_invariants` of mod.rs, which only debug builds
-  run, plus the number ranges), for every clock value and every command of the proved families
+  run, plus the number ranges), for every clock value and every command of M7's command set (80 commands, 8 families)
 
     * the reply is M7's reply,
     * the visible keyspace afterwards (keys, types, values, remaining TTLs) is M7's,
@@ -26,25 +25,20 @@ set_option linter.unusedVariables false
 namespace RedisVerif.C01Exec
 open RedisVerif RedisVerif.Redis RedisVerif.Executor
 
-/-- commands whose refinement is proved below -/
-def Proved : Cmd → Bool
-  | .get _ | .set _ _ _ _ _ | .setnx _ _ | .append _ _ | .getset _ _ | .strlen _ | .mget _ | .mset _
-  | .msetnx _ | .getrange _ _ _ | .setrange _ _ _ | .getex _ _ | .getdel _
-  | .incr _ | .decr _ | .incrby _ _ | .decrby _ _
-  | .del _ | .exists _ | .type _ | .keys | .dbsize | .flushdb | .flushall | .randomkey _
-  | .rename _ _ | .renamenx _ _
-  | .expire _ _ _ | .pexpire _ _ _ | .expireat _ _ _ | .pexpireat _ _ _
-  | .ttl _ | .pttl _ | .expiretime _ | .pexpiretime _ | .persist _ => true
-  | _ => false
-
 /-- what the parsers guarantee about a command: integer arguments are i64 (the `Command` fields are),
     EXPIRE / PEXPIRE flags are compatible (refused with an error before the executor is reached),
-    EXPIREAT / PEXPIREAT carry no flags (the variants have none) -/
+    EXPIREAT / PEXPIREAT carry no flags (the variants have none), the variadic commands have at least one
+    element (arity check), ZADD's flags are compatible -/
 def CmdOk : Cmd → Prop
   | .set _ _ _ e _ => SetExpOk e
   | .getex _ o => GetExOk o
   | .expire _ v f | .pexpire _ v f => I64 v ∧ flagsCompatible f = true
   | .expireat _ v f | .pexpireat _ v f => I64 v ∧ f = noFlags
+  | .lpush _ vs | .rpush _ vs => vs ≠ []
+  | .sadd _ ms => ms ≠ []
+  | .hset _ fvs => fvs ≠ []
+  | .zadd _ f ps => ps ≠ [] ∧ zflagsCompatible f = true
+  | .hincrby _ _ d => I64 d
   | _ => True
 
 instance : DecidablePred CmdOk := fun c => by
@@ -79,7 +73,7 @@ theorem stepDev_eq_step {c : Cmd} (h : Deviates c = false) (s : State) (now : Na
     `execute` does not trap, answers what M7 (with the two recorded deviations) answers on the visible
     keyspace, leaves M7's visible keyspace, keeps the invariant, and touches neither clock nor epoch. -/
 theorem executor_exec_refines {cs : CState} (h : CInv cs) (c : Cmd)
-    (hp : Proved c = true) (hc : CmdOk c) (hr : Room cs c) :
+    (hc : CmdOk c) (hr : Room cs c) :
     ∃ res, execC cs c = some res ∧ SimF cs (fun s => execDev s (unix cs) c) res := by
   cases c
   case get k => exact ⟨_, rfl, cGet_sim h k⟩
@@ -124,7 +118,45 @@ theorem executor_exec_refines {cs : CState} (h : CInv cs) (c : Cmd)
   case expiretime k => exact ⟨_, rfl, cExpireTime_sim h k hr⟩
   case pexpiretime k => exact ⟨_, rfl, cPExpireTime_sim h k⟩
   case persist k => exact ⟨_, rfl, cPersist_sim h k⟩
-  all_goals simp [Proved] at hp
+  case lpush k vs => exact ⟨_, rfl, cPush_sim h .left k vs hc⟩
+  case rpush k vs => exact ⟨_, rfl, cPush_sim h .right k vs hc⟩
+  case lpop k => exact ⟨_, rfl, cPop_sim h .left k⟩
+  case rpop k => exact ⟨_, rfl, cPop_sim h .right k⟩
+  case llen k => exact ⟨_, rfl, cLLen_sim h k⟩
+  case lindex k i => exact ⟨_, rfl, cLIndex_sim h k i⟩
+  case lrange k a b => exact ⟨_, rfl, cLRange_sim h k a b⟩
+  case lset k i v => exact ⟨_, rfl, cLSet_sim h k i v⟩
+  case ltrim k a b => exact ⟨_, rfl, cLTrim_sim h k a b⟩
+  case rpoplpush a b => exact ⟨_, rfl, cLMove_sim h a b .right .left⟩
+  case lmove a b f t => exact ⟨_, rfl, cLMove_sim h a b f t⟩
+  case sadd k ms => exact ⟨_, rfl, cSAdd_sim h k ms hc⟩
+  case srem k ms => exact ⟨_, rfl, cSRem_sim h k ms⟩
+  case smembers k => exact ⟨_, rfl, cSMembers_sim h k⟩
+  case sismember k m => exact ⟨_, rfl, cSIsMember_sim h k m⟩
+  case scard k => exact ⟨_, rfl, cSCard_sim h k⟩
+  case spop k n ch =>
+    cases n with
+    | none => exact ⟨_, rfl, cSPop1_sim h k ch⟩
+    | some n => exact ⟨_, rfl, cSPopN_sim h k n ch⟩
+  case hset k fvs => exact ⟨_, rfl, cHSet_sim h k fvs hc⟩
+  case hget k f => exact ⟨_, rfl, cHGet_sim h k f⟩
+  case hdel k fs => exact ⟨_, rfl, cHDel_sim h k fs⟩
+  case hgetall k => exact ⟨_, rfl, cHGetAll_sim h k⟩
+  case hkeys k => exact ⟨_, rfl, cHKeys_sim h k⟩
+  case hvals k => exact ⟨_, rfl, cHVals_sim h k⟩
+  case hlen k => exact ⟨_, rfl, cHLen_sim h k⟩
+  case hexists k f => exact ⟨_, rfl, cHExists_sim h k f⟩
+  case hincrby k f d => exact ⟨_, rfl, cHIncrBy_sim h k f d hc⟩
+  case zadd k f ps => exact ⟨_, rfl, cZAdd_sim h k f ps hc.1 hc.2⟩
+  case zrem k ms => exact ⟨_, rfl, cZRem_sim h k ms⟩
+  case zrange k a b ws => exact ⟨_, rfl, cZRange_sim h k a b ws false⟩
+  case zrevrange k a b ws => exact ⟨_, rfl, cZRange_sim h k a b ws true⟩
+  case zscore k m => exact ⟨_, rfl, cZScore_sim h k m⟩
+  case zrank k m => exact ⟨_, rfl, cZRank_sim h k m⟩
+  case zcard k => exact ⟨_, rfl, cZCard_sim h k⟩
+  case zcount k lo hi => exact ⟨_, rfl, cZCount_sim h k lo hi⟩
+  case zrangebyscore k lo hi ws lim => exact ⟨_, rfl, cZRangeByScore_sim h k lo hi ws lim⟩
+  case sort k st => exact ⟨_, rfl, cSort_sim h k st⟩
 
 /-! ## the simulation relation, the clock, whole histories -/
 
@@ -135,12 +167,12 @@ theorem executor_init (epoch : Nat) (h : epoch ≤ 9223372036854775807) : R (CSt
   ⟨⟨NMap.wf_nil, NMap.wf_nil, (fun k hk => by simp [CState.new] at hk), (fun p hp => by cases hp),
     (by simp [CState.new]; exact h), (fun k d hd => by simp [CState.new] at hd)⟩, rfl⟩
 
-/-- **One step.**  Related states stay related under every proved command; the reply is M7's. -/
+/-- **One step.**  Related states stay related under every command; the reply is M7's. -/
 theorem executor_step_refines {cs : CState} {s : State} (hR : R cs s) (c : Cmd)
-    (hp : Proved c = true) (hc : CmdOk c) (hr : Room cs c) :
+    (hc : CmdOk c) (hr : Room cs c) :
     ∃ cs' r, execC cs c = some (cs', r) ∧ r = (stepDev s (unix cs) c).2 ∧
       R cs' (stepDev s (unix cs) c).1 ∧ cs'.now = cs.now ∧ cs'.epoch = cs.epoch := by
-  obtain ⟨res, he, h1, h2, h3, h4, h5⟩ := executor_exec_refines hR.1 c hp hc hr
+  obtain ⟨res, he, h1, h2, h3, h4, h5⟩ := executor_exec_refines hR.1 c hc hr
   have hu : unix res.1 = unix cs := by simp [unix, h4, h5]
   refine ⟨res.1, res.2, he, ?_, ⟨h3, ?_⟩, h4, h5⟩
   · rw [h1]; unfold stepDev; rw [← hR.2]
@@ -195,7 +227,7 @@ def runDev (epoch : Nat) : State → List Ev → State × List Reply
      (stepDev s (epoch + e.t) e.c).2 :: (runDev epoch (stepDev s (epoch + e.t) e.c).1 es).2)
 
 /-- a history the theorem speaks about: the clock never goes back and stays inside i64 (with the
-    epoch), every command is well-formed and of a proved family (EXPIRETIME is covered by the one-step
+    epoch), every command is well-formed (EXPIRETIME is covered by the one-step
     theorem, where its room for `+500` can be stated on the state) -/
 def isExpireTime : Cmd → Bool
   | .expiretime _ => true
@@ -204,7 +236,7 @@ def isExpireTime : Cmd → Bool
 def EvsOk (epoch : Nat) : Nat → List Ev → Prop
   | _, [] => True
   | now, e :: es =>
-    now ≤ e.t ∧ epoch + e.t ≤ 9223372036854775807 ∧ Proved e.c = true ∧ CmdOk e.c ∧
+    now ≤ e.t ∧ epoch + e.t ≤ 9223372036854775807 ∧ CmdOk e.c ∧
       isExpireTime e.c = false ∧ EvsOk epoch e.t es
 
 instance (epoch : Nat) : ∀ (now : Nat) (es : List Ev), Decidable (EvsOk epoch now es)
@@ -224,7 +256,7 @@ theorem executor_run_refines (es : List Ev) : ∀ {cs : CState} {s : State}, R c
   | nil => intro cs s hR _; exact ⟨cs, [], rfl, rfl, hR, rfl⟩
   | cons e es ih =>
     intro cs s hR hok
-    obtain ⟨h1, h2, h3, h4, h5, h6⟩ := hok
+    obtain ⟨h1, h2, h4, h5, h6⟩ := hok
     have hclk := executor_clock_refines hR h1 h2
     have hR1 : R (moveClock cs e) s := by
       unfold moveClock; cases e.evict
@@ -235,7 +267,7 @@ theorem executor_run_refines (es : List Ev) : ∀ {cs : CState} {s : State}, R c
     have hroom : Room (moveClock cs e) e.c := by
       cases hc : e.c <;> simp only [Room]
       case expiretime k => rw [hc] at h5; cases h5
-    obtain ⟨c2, r, he, hr, hR2, hn2, he2⟩ := executor_step_refines hR1 e.c h3 h4 hroom
+    obtain ⟨c2, r, he, hr, hR2, hn2, he2⟩ := executor_step_refines hR1 e.c h4 hroom
     have hux : unix (moveClock cs e) = cs.epoch + e.t := by simp [unix, hnow, hep]
     rw [hux] at hr hR2
     have hok2 : EvsOk c2.epoch c2.now es := by rw [he2, hn2, hep, hnow]; exact h6
@@ -262,7 +294,7 @@ theorem runDev_eq_run (epoch : Nat) (es : List Ev) (hd : ∀ e ∈ es, Deviates 
     rfl
 
 /-- **Conformance of the executor, from the empty database.**  Every history of well-formed commands of
-    the proved families other than GETSET / GETRANGE, with any clock moves: the executor's replies are
+    M7's command set other than GETSET / GETRANGE, with any clock moves: the executor's replies are
     the reference model's, and what a client can see afterwards is the reference model's keyspace. -/
 theorem executor_conforms (epoch : Nat) (he : epoch ≤ 9223372036854775807) (es : List Ev)
     (hok : EvsOk epoch 0 es) (hd : ∀ e ∈ es, Deviates e.c = false) :
